@@ -75,10 +75,15 @@ class Lane:
         if jr["end"] == "hang" and confirm:
             self.counters["hang_suspects"] += 1
             k = jr["at"]
-            if engine == "jit" and line_budget and k is not None:
+            if line_budget and k is not None:
                 if self.hangs(plan, "py-linebudget", upto=k, line_budget=line_budget, timeout=confirm_timeout):
                     jr["confirmed"] = "py-linebudget"
                     return jr
+            if engine == "py":
+                # interpreted and not reproducible under the line clock (or no budget defined for this world): a slow
+                # op, not a hang we can prove - the caller treats it as inconclusive
+                self.fresh(engine, hashseed)
+                return jr
             w = self.fresh(engine, hashseed)
             jr2 = w.run(plan, op_timeout=confirm_timeout)
             if jr2["end"] == "harness":
@@ -98,9 +103,10 @@ class Lane:
             p["ops"] = plan["ops"][:upto + 1]
         if mode == "py-linebudget":
             p["cfg"] = dict(plan.get("cfg", {}), line_budget=int(line_budget))
-            jr = self.worker("py").run(p, op_timeout=timeout)
+            jr = self.worker("py").run(p, op_timeout=max(timeout, 300.0))
             if jr["end"] == "hang":
-                return True
+                self.fresh("py")
+                return False  # the line clock did not expire within the wall-clock allowance: not proven
             return any(o is not None and o.get("st") == "linebudget" for o in jr["obs"])
         jr = self.worker("jit").run(p, op_timeout=min(timeout, 15.0))
         return jr["end"] == "hang"
